@@ -552,7 +552,291 @@ class PathSuite(Suite):
         return len(res.get("ids", [])) >= 3
 
 
-SUITES = [Redirect(), CatSuite(), PathSuite()]
+# ---- trees with a history: the argument of redirect_tree / cat_tree is a tree the caller has already worked with ----------------------
+# read-only public analysis calls (the tree is the same tree afterwards) …
+READS = ["get_branches", "get_paths", "get_furcations", "get_tips", "get_segments", "length", "traverse", "subtree", "get_neurites"]
+
+
+def do_read(t, name, pick):
+    if name == "traverse":
+        return t.traverse(leave=lambda n, ch: 1 + sum(ch))
+    if name == "subtree":
+        return t.node(int(t.id()[pick % t.number_of_nodes()])).subtree()
+    if name == "get_neurites":
+        return list(t.get_neurites(type_check=False))
+    return getattr(t, name)()
+
+
+def snap(y):
+    """every per-node column of a tree (node identity: the radius key, tree i carries 64 i + (j+1)/8; the extra column 1000 (i+1) + j)"""
+    return {"id": y.id().tolist(), "pid": y.pid().tolist(), "type": y.type().tolist(), "r": [float(v) for v in y.r()],
+            "tag": [float(v) for v in y.get_ndata("tag")] if "tag" in y.keys() else None, "xyz": y.xyz().astype(float).tolist()}
+
+
+def pick_node(S, pick, nonroot=False):
+    """the node (= position) of the current tree an operation of a chain is applied at"""
+    n = len(S["pid"])
+    k = pick % n
+    if nonroot and n > 1 and S["pid"][k] == -1:
+        k = (k + 1) % n
+    return k
+
+
+def tree_state(t, i):
+    """what `snap` returns for the i-th tree of a chain case as built by Chain.fresh"""
+    return {"id": list(range(t["n"])), "pid": list(t["pids"]), "type": list(t["types"]), "r": [float(np.float32(v)) for v in t["r"]],
+            "tag": [1000.0 * (i + 1) + j for j in range(t["n"])], "xyz": [[float(c) for c in p] for p in t["xyz"]]}
+
+
+def is_tree_state(S):
+    """a state the next operation can be judged on: ids are positions, one root, every node reaches it, distinct keys"""
+    n = same_len(S, ["pid", "id", "type", "r", "xyz"]) if isinstance(S, dict) else None
+    if not n or S["id"] != list(range(n)) or len(set(S["r"])) != n or S["pid"].count(-1) != 1:
+        return False
+    root = S["pid"].index(-1)
+    seen = {root}
+    for i in range(n):
+        path, j = [], i
+        while j not in seen:
+            if not (isinstance(j, int) and 0 <= j < n) or j in path:
+                return False
+            path.append(j); j = S["pid"][j]
+        seen.update(path)
+    return True
+
+
+def key_edges(S):
+    return {frozenset([S["r"][j], S["r"][p]]) for j, p in enumerate(S["pid"]) if p >= 0}
+
+
+def judge_redirect(S, k, sort, R, what):
+    """the property's re-rooting clause for input state S, new root k (a position of S), output state R; nodes are identified by their key"""
+    n = len(S["pid"])
+    if same_len(R, ["pid", "id", "type", "r", "xyz"]) is None:
+        return [("chain-redirect-malformed-output", f"the per-node columns of the result differ in length ({what})")]
+    if sorted(R["r"]) != sorted(S["r"]):
+        lost = sorted(set(S["r"]) - set(R["r"]))
+        return [("chain-redirect-nodes", f"{len(R['r'])} of {n} nodes after re-rooting, lost the nodes with keys {lost[:8]} ({what})")]
+    out = []
+    if R["id"] != list(range(n)):
+        out.append(("chain-redirect-ids", f"ids are not 0..n-1 ({what})"))
+    at = {key: j for j, key in enumerate(R["r"])}
+    r0 = S["pid"].index(-1)
+    want_type = list(S["type"])
+    want_type[k], want_type[r0] = S["type"][r0], S["type"][k]
+    for o in range(n):
+        j = at[S["r"][o]]
+        if R["xyz"][j] != S["xyz"][o] or (R.get("tag") or [None] * n)[j] != (S.get("tag") or [None] * n)[o]:
+            out.append(("chain-redirect-attrs", f"position / extra column of the node with key {S['r'][o]} changed ({what})")); break
+        if R["type"][j] != want_type[o]:
+            out.append(("chain-redirect-types", f"type of the node with key {S['r'][o]} is {R['type'][j]}, expected {want_type[o]} (only old/new root exchanged; {what})")); break
+    a_, b_ = key_edges(S), key_edges(R)
+    if a_ != b_:
+        out.append(("chain-redirect-edges", f"undirected edges changed: lost {[sorted(e) for e in a_ - b_][:4]}, added {[sorted(e) for e in b_ - a_][:4]} (keys; {what})"))
+    roots = [R["r"][j] for j, p in enumerate(R["pid"]) if p == -1]
+    if roots != [S["r"][k]]:
+        out.append(("chain-redirect-root", f"roots after re-rooting at position {k} (key {S['r'][k]}): keys {roots} ({what})"))
+    if sort and (well_formed(R["id"], R["pid"]) is not None or any(not (p < j) for j, p in enumerate(R["pid"]))):
+        out.append(("chain-redirect-unsorted", f"sort=True but the result is not a sorted well-formed tree ({what})"))
+    if not sort and R["r"] != S["r"]:
+        out.append(("chain-redirect-nosort-moved", f"sort=False but nodes changed position ({what})"))
+    return out[:3]
+
+
+def judge_cat(S1, S2, a, b, translate, R, what):
+    """the property's concatenation clause for input states S1, S2, junction positions a, b, output state R"""
+    if same_len(R, ["pid", "id", "type", "r", "xyz"]) is None:
+        return [("chain-cat-malformed-output", f"the per-node columns of the result differ in length ({what})")]
+    shift = [S1["xyz"][a][i] - S2["xyz"][b][i] for i in range(3)] if translate else [0.0, 0.0, 0.0]
+    pos = {key: S1["xyz"][j] for j, key in enumerate(S1["r"])}
+    pos.update({key: [S2["xyz"][j][i] + shift[i] for i in range(3)] for j, key in enumerate(S2["r"])})
+    ka, kb = S1["r"][a], S2["r"][b]
+    merged = pos[kb] == pos[ka]
+    want = set(S1["r"]) | {key for key in S2["r"] if not (merged and key == kb)}
+    if sorted(R["r"]) != sorted(want):
+        return [("chain-cat-nodes", f"result has {len(R['r'])} nodes, expected {len(want)}: lost keys {sorted(want - set(R['r']))[:8]}, "
+                                    f"unexpected {sorted(set(R['r']) - want)[:8]} ({what}, merged={merged})")]
+    out = []
+    if well_formed(R["id"], R["pid"]) is not None:
+        out.append(("chain-cat-not-wellformed", f"{well_formed(R['id'], R['pid'])} ({what})"))
+    tag = {key: (S.get("tag") or [None] * len(S["r"]))[j] for S in (S1, S2) for j, key in enumerate(S["r"])}
+    typ1 = dict(zip(S1["r"], S1["type"]))
+    for j, key in enumerate(R["r"]):
+        if R["xyz"][j] != pos[key]:
+            out.append(("chain-cat-positions", f"the node with key {key} is at {R['xyz'][j]}, expected {pos[key]} ({what})")); break
+        if (R.get("tag") or [None] * len(R["r"]))[j] != tag[key]:
+            out.append(("chain-cat-attrs", f"the extra column of the node with key {key} changed ({what})")); break
+        if key in typ1 and R["type"][j] != typ1[key]:
+            out.append(("chain-cat-types", f"type of tree1's node with key {key} changed ({what})")); break
+    sub = lambda key: ka if merged and key == kb else key
+    E = key_edges(S1) | {frozenset([sub(u) for u in e]) for e in key_edges(S2)} | (set() if merged else {frozenset([ka, kb])})
+    got = key_edges(R)
+    if got != E:
+        out.append(("chain-cat-edges", f"edges differ: missing {[sorted(e) for e in E - got][:4]}, extra {[sorted(e) for e in got - E][:4]} (keys; {what}, merged={merged})"))
+    at = {key: j for j, key in enumerate(R["r"])}
+    for j, p in enumerate(S1["pid"]):
+        if R["pid"][at[S1["r"][j]]] != (-1 if p == -1 else at[S1["r"][p]]):
+            out.append(("chain-cat-tree1-parents", f"the parent of tree1's node with key {S1['r'][j]} changed ({what})")); break
+    return out[:3]
+
+
+def op_name(op):
+    return {"read": lambda: "read:" + op["call"], "sort": lambda: "sort_tree", "redirect": lambda: f"redirect({'sort' if op['sort'] else 'nosort'})",
+            "cat": lambda: f"cat(as-{op['side']},{'translate' if op['translate'] else 'fixed'})"}[op["op"]]()
+
+
+class Chain(Suite):
+    """redirect_tree / cat_tree on trees with a history: the argument has been analysed through read-only public calls before, or is itself the
+    result of earlier re-rootings / concatenations / sort_tree (a tree grown by several cat_tree calls and then re-rooted, a root moved step by
+    step).  Every redirect_tree / cat_tree step is judged on its actual input (the state after the previous step); not sent to the Lean driver."""
+    name = "c07.chain"
+
+    def cases(self, rng, tier, widen):
+        out = []
+        big = tier == "thorough" or widen
+        sizes = [2, 3, 4, 6, 9] + ([14, 25] if big else [])
+        k = [0]
+
+        def tree(i):
+            k[0] += 1
+            return lattice(rng, rng.choice(sizes if i == 0 else sizes[:4]), gen.pick_shape(rng, k[0]), base=(40 * i, 0, 0), key0=64.0 * i)
+
+        def redirect(sort=None):
+            return {"op": "redirect", "pick": rng.randrange(10 ** 6), "sort": rng.random() < 0.5 if sort is None else sort, "nonroot": rng.random() < 0.85}
+
+        def cat(trees, side=None, translate=None):
+            trees.append(tree(len(trees)))
+            return {"op": "cat", "other": len(trees) - 1, "side": side or rng.choice(["first", "first", "second"]), "pick": rng.randrange(10 ** 6),
+                    "opick": rng.randrange(10 ** 6), "translate": rng.random() < 0.6 if translate is None else translate, "nonroot": rng.random() < 0.85}
+
+        def read():
+            return {"op": "read", "call": rng.choice(READS), "pick": rng.randrange(10 ** 6)}
+
+        # (a) the tree has been looked at before: every read-only call, then every kind of operation
+        targets = ["redirect-sort", "redirect-nosort", "cat-first", "cat-second"]
+        for rep in range(1 if not big else 3):
+            for call in READS:
+                for tg in targets:
+                    trees = [tree(0)]
+                    ops = [{"op": "read", "call": call, "pick": rng.randrange(10 ** 6)}]
+                    ops.append(redirect(tg == "redirect-sort") if tg.startswith("redirect") else cat(trees, tg[4:]))
+                    out.append({"class": f"used-before/{tg}", "trees": trees, "ops": ops})
+        # (b) the tree is the product of earlier operations
+        for rep in range(6 if not big else 24):
+            trees = [tree(0)]                                     # the root moved several times (renumbering every time in half of the cases)
+            allsort = rep % 2 == 0
+            ops = [redirect(True if allsort else None) for _ in range(rng.randint(3, 5) if allsort else rng.randint(2, 5))]
+            out.append({"class": "chain/redirects" + ("-sorted" if allsort else ""), "trees": trees, "ops": ops})
+            trees = [tree(0)]                                     # a tree grown by several concatenations, then re-rooted
+            ops = [cat(trees, "first" if rep % 3 else None) for _ in range(rng.randint(2, 3))] + [redirect()]
+            out.append({"class": "chain/cat-grown→redirect", "trees": trees, "ops": ops})
+            trees = [tree(0)]                                     # … then hung by one of its nodes onto another tree
+            ops = [cat(trees, "first" if rep % 3 else None) for _ in range(rng.randint(2, 3))] + [cat(trees, "second", rep % 2 == 0)]
+            out.append({"class": "chain/cat-grown→cat-second", "trees": trees, "ops": ops})
+            trees = [tree(0)]                                     # anything, looked at in between
+            ops = []
+            for _ in range(rng.randint(3, 6)):
+                c = rng.random()
+                ops.append(redirect() if c < 0.4 else cat(trees) if c < 0.65 else {"op": "sort"} if c < 0.75 else read())
+            ops.append(redirect() if rng.random() < 0.6 else cat(trees))
+            out.append({"class": "chain/mixed", "trees": trees, "ops": ops})
+        return out
+
+    @staticmethod
+    def fresh(case, i):
+        t = gen.make_tree(case["trees"][i])
+        t.ndata["tag"] = (1000.0 * (i + 1) + np.arange(case["trees"][i]["n"])).astype(np.float32)
+        return t
+
+    def run(self, case):
+        from harness.framework import CaseTimeout
+        from swcgeom.core.tree_utils import cat_tree, redirect_tree, sort_tree
+
+        cur = self.fresh(case, 0)
+        steps = []
+        for op in case["ops"]:
+            S = snap(cur)
+            entry = {}
+            try:
+                if op["op"] == "read":
+                    try:
+                        do_read(cur, op["call"], op["pick"])
+                    except CaseTimeout:
+                        raise
+                    except Exception as e:  # noqa: BLE001 - the analysis calls are not this property's subject
+                        entry["read_exc"] = type(e).__name__
+                    new = cur
+                elif op["op"] == "sort":
+                    new = sort_tree(cur)
+                elif op["op"] == "redirect":
+                    new = redirect_tree(cur, pick_node(S, op["pick"], op["nonroot"]), sort=op["sort"])
+                else:
+                    other = self.fresh(case, op["other"])
+                    O = snap(other)
+                    if op["side"] == "first":
+                        new = cat_tree(cur, other, pick_node(S, op["pick"]), pick_node(O, op["opick"], op["nonroot"]), translate=op["translate"])
+                    else:
+                        new = cat_tree(other, cur, pick_node(O, op["opick"]), pick_node(S, op["pick"], op["nonroot"]), translate=op["translate"])
+                    entry["unchanged"] = snap(other) == O
+                entry["unchanged"] = entry.get("unchanged", True) and snap(cur) == S
+                entry["state"] = snap(new)
+            except CaseTimeout:
+                raise
+            except Exception as e:  # noqa: BLE001 - the oracle decides
+                entry.update({"exc": type(e).__name__, "msg": str(e)[:300]})
+                steps.append(entry)
+                break
+            steps.append(entry)
+            cur = new
+        return {"steps": steps}
+
+    def lines(self, case, res):
+        return []
+
+    def oracle(self, case, res):
+        try:
+            return self._oracle(case, res)
+        except Exception as e:  # noqa: BLE001 - an output the clauses cannot even be evaluated on
+            return [("chain-malformed-output", f"a result in the chain cannot be read as a tree: {type(e).__name__}: {str(e)[:200]}")]
+
+    def _oracle(self, case, res):
+        if not isinstance(res, dict) or ("steps" not in res and "exc" not in res):
+            return [("chain-malformed-output", f"result {str(res)[:80]}")]
+        if "exc" in res:
+            return [("chain-raises", f"{res['exc']}: {res.get('msg')}")]
+        S = tree_state(case["trees"][0], 0)
+        names = [op_name(op) for op in case["ops"]]
+        for i, (op, entry) in enumerate(zip(case["ops"], res["steps"])):
+            what = f"step {i + 1} of {' → '.join(names)}; its input tree: pids={S['pid']}, keys={S['r']}"
+            judged = op["op"] in ("redirect", "cat")
+            if "exc" in entry:
+                return [(f"chain-{op['op']}-raises", f"{entry['exc']}: {entry.get('msg')} ({what})")] if judged else []
+            R = entry.get("state")
+            if judged:
+                if not isinstance(R, dict):
+                    return [(f"chain-{op['op']}-malformed-output", f"result {str(R)[:80]} ({what})")]
+                if op["op"] == "redirect":
+                    k = pick_node(S, op["pick"], op["nonroot"])
+                    f = judge_redirect(S, k, op["sort"], R, what + f", new root at position {k}")
+                else:
+                    O = tree_state(case["trees"][op["other"]], op["other"])
+                    (S1, a, S2, b) = (S, pick_node(S, op["pick"]), O, pick_node(O, op["opick"], op["nonroot"])) if op["side"] == "first" else \
+                                     (O, pick_node(O, op["opick"]), S, pick_node(S, op["pick"], op["nonroot"]))
+                    f = judge_cat(S1, S2, a, b, op["translate"], R, what + f"; the other tree: pids={O['pid']}; node1={a}, node2={b}, translate={op['translate']}")
+                if not entry.get("unchanged", True):
+                    f = f + [(f"chain-{op['op']}-mutates-input", f"an argument was modified ({what})")]
+                if f:
+                    return f[:3]
+            if not is_tree_state(R):
+                return []                              # an unjudged step (sort_tree, an analysis call) left something the next step cannot be judged on
+            S = R
+        return []
+
+    def nontrivial(self, case, res):
+        return len(res.get("steps", [])) == len(case["ops"]) >= 2 and sum(t["n"] for t in case["trees"]) >= 3
+
+
+SUITES = [Redirect(), CatSuite(), PathSuite(), Chain()]
 TECHNIQUE = ("Lean 4 theorems about the models of redirect_tree (root-path reversal: undirected edges preserved, unique new root, only two types exchanged) and "
              "cat_tree (row-by-row characterisation of the concatenated table: tree1 embedded, tree2 shifted and rigidly translated, junction link or merge, no other "
              "edge) composed with C05's sort theorems + differential correspondence + independent edge-set / rigid-motion oracle")
